@@ -168,6 +168,7 @@ Separate Extraction
   EmitData.data_of_dfa
   InvocationsSub.spec_run_sw
   Compiler.compile_bash
+  Compiler.compile_data
   Compiler.mkoracles
   Diag.render
   Diag.error_messages
